@@ -54,6 +54,9 @@ func TestGoFactsSelfTestDetects(t *testing.T) {
 		{"arm64-only call unmarked", "fix/arch_arm64.go", " // want: call one SetInt64", "", "reported but not planted"},
 		{"other package", "fix/fix.go", "// want: write inner.Tab", "", "reported but not planted"},
 		{"alias lost", "fix/fix.go", "p := one ", "p := new(big.Int).Set(one) ", "planted but NOT reported"},
+		{"parameter binding lost", "fix/fix.go", "s.fill(n, sl)", "s.fill(new(big.Int), sl)", "planted but NOT reported"},
+		{"helper write unmarked", "fix/fix.go", "dst[0] = 1 // want: write table", "dst[0] = 1", "reported but not planted"},
+		{"foreign argument unmarked", "fix/fix.go", "// want: farg sl8 (io.Reader).Read 0", "", "reported but not planted"},
 		{"init-only lost", "fix/fix.go", "func init() {\n\tcounter = 5 ", "func Init() {\n\tcounter = 5 ", "reported but not planted"},
 	} {
 		fsys := fixtureWith(t, c.file, func(s string) string { return strings.Replace(s, c.old, c.new, 1) })
